@@ -14,20 +14,24 @@ def sinAngleTab (index : Int) : M Int := idx sin_angle_table index
 def cosAngleTab (index : Int) : M Int := idx cos_angle_table index
 def tanTab (index : Int) : M Int := idx tan_table index
 
-/-- `sin_angle_aprox(int32_t)` (after the repair) ; the argument of `sin_angle_tab` is converted to `uint16_t` -/
-def sinAngleAprox (angle : Int) : M Int := do
+/-- the index computation shared (textually duplicated in the source) by `sin_angle_aprox` and `cos_angle_aprox`
+    (after the repair): `angle % 360`, `+ 360` when negative, then conversion to the `uint16_t` parameter -/
+def angleIndex (angle : Int) : M Int := do
   let a ← if angle < 0 ∨ angle > 360 then do
             let r ← mod64 angle 360   -- `int % int`; never overflows for a divisor of 360
             if r < 0 then chk32 (r + 360) else pure r
           else pure angle
-  sinAngleTab (toU16 a)
+  pure (toU16 a)
 
+/-- `sin_angle_aprox(int32_t)` -/
+def sinAngleAprox (angle : Int) : M Int := do
+  let i ← angleIndex angle
+  sinAngleTab i
+
+/-- `cos_angle_aprox(int32_t)` -/
 def cosAngleAprox (angle : Int) : M Int := do
-  let a ← if angle < 0 ∨ angle > 360 then do
-            let r ← mod64 angle 360
-            if r < 0 then chk32 (r + 360) else pure r
-          else pure angle
-  cosAngleTab (toU16 a)
+  let i ← angleIndex angle
+  cosAngleTab i
 
 /-- `fix_rbit_scan_clz` -/
 def rbitScanClz (value : Int) : Int := if value ≠ 0 then 32 - clz32 value else 0
